@@ -13,8 +13,62 @@ from .storelib import facts, node_desc
 from .c14 import IMPORTERS, mapping_obligations
 
 STORES = ("xandikos.store.git.GitStore", "xandikos.store.vdir.VdirStore")
-FWD = "self._fname_to_uid"   # name -> (etag, uid)
-REV = "self._uid_to_fname"   # uid  -> (name, etag)
+FWD_REF = "self._fname_to_uid"   # name -> (etag, uid)
+REV_REF = "self._uid_to_fname"   # uid  -> (name, etag)
+# the names of the two maps in the class being analysed (set by use_maps(); the reference names unless the class keeps
+# its maps elsewhere, e.g. in a helper object whose fields were flattened into `self.<field>__<x>` by the inliner)
+FWD = FWD_REF
+REV = REV_REF
+_MAPS = {}
+
+
+def map_names(ctx, cq):
+    """(forward map, reverse map) as dotted attribute paths of store class *cq*, recognised by their role: the forward
+    map is written `F[name] = (etag, uid)`, the reverse map `R[uid] = (name, etag)` - whatever they are called."""
+    _MAPS = ctx.__dict__.setdefault("_uid_map_names", {})     # cached on the context itself (object ids are reused)
+    key = cq
+    if key in _MAPS:
+        return _MAPS[key]
+    res = (FWD_REF, REV_REF)
+    try:
+        scan = ctx.own_method(cq, "_scan_uids")
+        cfg = ctx.cfg(scan)
+        du = DefUse(cfg)
+        stores = []
+        for n in cfg.stmt_nodes():
+            a = n.ast
+            if n.kind == "stmt" and isinstance(a, ast.Assign) and len(a.targets) == 1 and isinstance(a.targets[0], ast.Subscript):
+                base = dotted(a.targets[0].value)
+                if not (base and base.startswith("self.") and base.count(".") == 1):
+                    continue
+                val = a.value
+                if not isinstance(val, ast.Tuple):
+                    os_ = [o for o in origins(du, n, val) if o.kind == "expr" and isinstance(o.leaf, ast.Tuple) and not o.path]
+                    val = os_[0].leaf if len(os_) == 1 else None
+                if isinstance(val, ast.Tuple) and len(val.elts) == 2:
+                    stores.append((base, a.targets[0].slice, val))
+        bases = sorted({b for b, _k, _v in stores})
+        if FWD_REF in bases or REV_REF in bases or len(bases) != 2:
+            pass
+        else:
+            def key_name(e):
+                return e.id.split("__i")[0] if isinstance(e, ast.Name) else src(e)
+            x1 = [(k, v) for b, k, v in stores if b == bases[0]]
+            x2 = [(k, v) for b, k, v in stores if b == bases[1]]
+            (k1, v1), (k2, v2) = x1[0], x2[0]
+            if key_name(v1.elts[1]) == key_name(k2) and key_name(v2.elts[0]) == key_name(k1):
+                res = (bases[0], bases[1])
+            elif key_name(v2.elts[1]) == key_name(k1) and key_name(v1.elts[0]) == key_name(k2):
+                res = (bases[1], bases[0])
+    except AnalysisError:
+        pass
+    _MAPS[key] = res
+    return res
+
+
+def use_maps(ctx, cq):
+    global FWD, REV
+    FWD, REV = map_names(ctx, cq)
 
 
 @rule("C06", "U1", floor=10, kind="N",
@@ -60,6 +114,7 @@ def u1(ctx):
                               "_check_duplicate is called with (%s, %s): not the uploaded object's UID / target name"
                               % (src(a0) if a0 is not None else "?", src(a1) if a1 is not None else "?")))
     for cq in STORES:
+        use_maps(ctx, cq)
         fi = ctx.own_method(cq, "_check_duplicate")
         cfg = ctx.cfg(fi)
         du = DefUse(cfg)
@@ -129,6 +184,7 @@ def u1(ctx):
                     if k.arg == "check_for_duplicate_uids" and not (isinstance(k.value, ast.Constant) and k.value.value is True):
                         offs.append((f, n))
     for cq in STORES:
+        use_maps(ctx, cq)
         init = ctx.own_method(cq, "__init__")
         a = init.node.args
         default = None
@@ -185,6 +241,7 @@ def u2(ctx):
     obs = []
     targets = []
     for cq in STORES:
+        use_maps(ctx, cq)
         scan = ctx.own_method(cq, "_scan_uids")
         targets.append((cq, scan, True))
         # any other method of the store that records a name in the forward map has the same obligation
@@ -193,6 +250,7 @@ def u2(ctx):
                     and any(s_[1] == "store" for s_ in _subscript_sites(ctx.cfg(f_), FWD)):
                 targets.append((cq, f_, False))
     for cq, fi, is_scan in targets:
+        use_maps(ctx, cq)
         cfg = ctx.cfg(fi)
         du = DefUse(cfg)
         fstores = [s for s in _subscript_sites(cfg, FWD) if s[1] == "store"]
@@ -297,49 +355,80 @@ def u4(ctx):
            "the file name")
 def u5(ctx):
     obs = []
+
+    def sig(du, n, e):
+        return frozenset((o.kind, o.name, id(o.leaf), tuple(o.path)) for o in origins(du, n, e))
+
+    def rev_component(du, n, e):
+        """Index of the component of a reverse-map entry that *e* holds at *n* (None if it is not one)."""
+        idxs = set()
+        os_ = [o for o in origins(du, n, e) if not o.is_none()]
+        if not os_:
+            return None
+        for o in os_:
+            lf = o.leaf
+            if o.kind == "expr" and lf is not None and _is_rev_read(lf, strict=True) and len(o.path) == 1 and isinstance(o.path[0], int):
+                idxs.add(o.path[0])
+            elif o.kind == "expr" and isinstance(lf, ast.Tuple) and all(isinstance(x, ast.Constant) and x.value is None for x in lf.elts):
+                continue            # the `(None, None)` default of .get()
+            elif o.kind == "expr" and isinstance(lf, ast.Constant) and lf.value is None:
+                continue
+            else:
+                return None
+        return idxs.pop() if len(idxs) == 1 else None
+
     for cq in STORES:
+        use_maps(ctx, cq)
         ci = ctx.P.cls(cq)
-        # writer layout
+        funcs = [ctx.own_method(cq, m_) for m_ in ("_scan_uids", "_check_duplicate")]
+        # writer layout: the component of the reverse-map entry that holds what the forward map is keyed by (the name)
         pos = None
-        for f in ci.methods.values():
-            for n in walk_local(f.node):
-                if isinstance(n, ast.Assign) and isinstance(n.targets[0], ast.Subscript) and dotted(n.targets[0].value) == REV and isinstance(n.value, ast.Tuple):
-                    for i, e in enumerate(n.value.elts):
-                        if isinstance(e, ast.Name) and e.id == "name":
-                            pos = i
-        if pos is None:
-            raise AnalysisError("%s: writer of %s with a tuple containing `name` not found" % (cq, REV))
-        nread = 0
-        for f in ci.methods.values():
+        for f in funcs:
             cfg = ctx.cfg(f)
             du = DefUse(cfg)
+            fkeys = set()
+            for n in cfg.stmt_nodes():
+                a_ = n.ast
+                if n.kind == "stmt" and isinstance(a_, ast.Assign) and isinstance(a_.targets[0], ast.Subscript) and dotted(a_.targets[0].value) == FWD:
+                    fkeys.add(sig(du, n, a_.targets[0].slice))
+            for n in cfg.stmt_nodes():
+                a_ = n.ast
+                if n.kind == "stmt" and isinstance(a_, ast.Assign) and isinstance(a_.targets[0], ast.Subscript) and dotted(a_.targets[0].value) == REV:
+                    val = a_.value
+                    if not isinstance(val, ast.Tuple):
+                        tv = [o.leaf for o in origins(du, n, val) if o.kind == "expr" and isinstance(o.leaf, ast.Tuple) and not o.path]
+                        val = tv[0] if len(tv) == 1 else None
+                    if isinstance(val, ast.Tuple):
+                        for i, e in enumerate(val.elts):
+                            if sig(du, n, e) in fkeys:
+                                pos = i
+        if pos is None:
+            raise AnalysisError("%s: writer of %s with a tuple containing the file name not found" % (cq, REV))
+        nread = 0
+        for f in funcs:
+            cfg = ctx.cfg(f)
+            du = DefUse(cfg)
+            seen_t = set()
             for t in [x for x in cfg.nodes if x.kind == "test" and isinstance(x.ast, ast.Compare) and len(x.ast.ops) == 1
                       and isinstance(x.ast.ops[0], (ast.Eq, ast.NotEq))]:
+                if id(t.ast) in seen_t:
+                    continue
                 sides = [t.ast.left, t.ast.comparators[0]]
-                if not any(isinstance(s_, ast.Name) and s_.id == "name" for s_ in sides):
-                    continue
-                other = [s_ for s_ in sides if not (isinstance(s_, ast.Name) and s_.id == "name")][0]
                 idx = None
-                from_rev = False
-                if isinstance(other, ast.Subscript) and isinstance(other.slice, ast.Constant) and REV in src(other.value):
-                    idx, from_rev = other.slice.value, True
-                elif isinstance(other, ast.Name):
-                    for d in du.reaching(t, other.id):
-                        if d.value is not None and REV in src(d.value):
-                            from_rev = True
-                            if d.index:
-                                idx = d.index[0]
-                            elif isinstance(d.value, ast.Subscript) and isinstance(d.value.slice, ast.Constant):
-                                idx = d.value.slice.value
-                if not from_rev:
+                for s1, s2 in (sides, sides[::-1]):
+                    k_ = rev_component(du, t, s1)
+                    if k_ is not None and rev_component(du, t, s2) is None and not (isinstance(s2, ast.Constant)):
+                        idx = k_
+                if idx is None:
                     continue
+                seen_t.add(id(t.ast))
                 nread += 1
                 obs.append(ctx.ob(idx == pos, f.qualname, where(f, t), "reader compares component %d (the name) of %s" % (pos, REV.split(".")[-1]),
                                   "`%s` uses component %s" % (src(t.ast), idx),
                                   "`%s` compares component %s of a %s entry with the file name, but the writers store the name in component %d: "
                                   "the comparison never holds, so entries are never released (or conflicts never detected)" % (src(t.ast), idx, REV.split(".")[-1], pos)))
         if nread < 2:
-            raise AnalysisError("%s: only %d readers of %s compared with `name`" % (cq, nread, REV))
+            raise AnalysisError("%s: only %d readers of %s compared with the file name" % (cq, nread, REV))
     return obs
 
 
@@ -349,6 +438,7 @@ def u5(ctx):
 def u6(ctx):
     obs = []
     for cq in STORES:
+        use_maps(ctx, cq)
         fi = ctx.own_method(cq, "_scan_uids")
         cfg = ctx.cfg(fi)
         loops = loops_over(cfg, ("_iterblobs", "iter_with_etag"))
